@@ -231,6 +231,18 @@ def _record_claims(res, data, cfg):
     res.endpoints = eps
 
 
+def as_30(doc):
+    """The same document declared as OpenAPI 3.0.3, or None when it uses a 3.1-only construct (const, null type, type lists)."""
+    import copy as _copy
+    import json as _json
+    text = _json.dumps(doc)
+    if doc.get("openapi", "").startswith("3.0") or '"const"' in text or '"type": "null"' in text or '"type": [' in text or '"summary": "s"' in text:
+        return None
+    d = _copy.deepcopy(doc)
+    d["openapi"] = "3.0.3"
+    return d
+
+
 def base_doc(schemas=None, paths=None, version="3.1.0", **extra):
     d = {"openapi": version, "info": {"title": "t", "version": "1"}, "paths": paths if paths is not None else {}}
     if schemas is not None:
